@@ -41,7 +41,7 @@ REPO = os.environ.get("VERIF_REPO", "/repo")
 VERIF = os.path.dirname(os.path.dirname(os.path.abspath(__file__)))
 CACHE = os.environ.get("VERIF_CACHE", os.path.join(VERIF, ".cache"))
 STUBS = os.path.join(VERIF, "stubs")
-FRONTEND_VERSION = "cxx-14"
+FRONTEND_VERSION = "cxx-16"
 
 CLANG = "clang++"
 
@@ -339,6 +339,33 @@ def _is_const_expr(n):
     if k == "BinaryOperator" and n.get("inner"):
         return all(_is_const_expr(c) for c in n["inner"])
     return False
+
+
+def src_template_args(n):
+    """text between the outermost <...> of the source range of node n (e.g. std::make_shared<IndexedOptionArray64>)"""
+    f = n.get("_f")
+    rg = n.get("range") or {}
+    b, e = rg.get("begin") or {}, rg.get("end") or {}
+    if "expansionLoc" in b:
+        b = b["expansionLoc"]
+    if "expansionLoc" in e:
+        e = e["expansionLoc"]
+    boff, eoff, tl = b.get("offset"), e.get("offset"), e.get("tokLen")
+    if f is None or boff is None or eoff is None:
+        return None
+    p = f if os.path.isabs(f) else os.path.join(REPO, f)
+    if p not in _srcs:
+        try:
+            with open(p, "rb") as fh:
+                _srcs[p] = fh.read()
+        except OSError:
+            _srcs[p] = b""
+    text = _srcs[p][boff:eoff + (tl or 1)].decode("utf-8", "replace")
+    i = text.find("<")
+    j = text.rfind(">")
+    if i < 0 or j <= i:
+        return None
+    return clean_type(re.sub(r"\s+", " ", text[i + 1:j]).strip())
 
 
 class Lower:
@@ -656,12 +683,18 @@ class Lower:
             if fn is not None:
                 q = fn[1] or ""
                 if q.endswith("make_shared") or q.endswith("::make_shared"):
-                    t = clean_type(_qt(n))
-                    if t == "<dependent type>" or not t:
-                        t = self._explicit_targs(f)
-                    else:
-                        m = re.match(r"shared_ptr<(?:_NonArray<)?(.*?)>+$", t)
-                        t = m.group(1) if m else t
+                    # the type as written in the source (std::make_shared<X>) so that template patterns and
+                    # non-template code name classes the same way (aliases such as ListOffsetArray64 are kept)
+                    t = src_template_args(f)
+                    if not t:
+                        t = clean_type(_qt(n))
+                        m = re.match(r"shared_ptr<(?:_NonArray<)?(.*)>$", t)
+                        if m:
+                            t = m.group(1)
+                            if t.count("<") < t.count(">"):
+                                t = t[:-1]
+                        if t == "<dependent type>" or not t:
+                            t = "?"
                     return ("make", t, args, line)
                 return ("call", fn, args, line)
             return ("call", self.expr(f), args, line)
@@ -769,8 +802,9 @@ class Lower:
         return ("unk", k)
 
     def _explicit_targs(self, f):
-        # make_shared<X>(...) in dependent context: clang JSON does not print explicit template args; unknown
-        return "?"
+        """make_shared<X>(...) in a dependent context: clang's JSON does not print the explicit template arguments;
+        recover X from the source text of the callee expression"""
+        return src_template_args(f) or "?"
 
 
 # --------------------------------------------------------------------------------------
